@@ -1,13 +1,225 @@
-"""C11 -- Cooperator advances only runnable tasks, completes each once, starves none: bounded stand-in (contracts/parts/C11_bounded.py)."""
-from contracts._parts import bounded, EXPLORATION_NOTE
+"""C11 -- Cooperator advances only runnable tasks, completes each once, starves none.
 
-CONTRACTS = []
+Deductive: the per-task protocol of CooperativeTask (loop free apart from the walk over the completion Deferreds).
+_oneWorkUnit under every outcome of next(iterator) -- a value, a Deferred, StopIteration, an Exception, a non-Exception
+BaseException: completion happens exactly for exhaustion (TaskDone, result the iterator) and for a raise (TaskFailed,
+result a Failure), every whenDone Deferred is fired exactly once, a yielded Deferred pauses the task, takes it out of the
+cooperator and hooks resume / failure continuations.  stop(): TaskStopped, completion Deferreds fired once, and a later
+failure of the Deferred the task was waiting on changes nothing (the scenario of finding F2 / fix d8cb39d).  pause /
+resume / stop on a finished task raise the completion state; resume without pause raises NotPaused.
+Bounded (contracts/parts/C11_bounded.py): whole histories on the real Cooperator with a deterministic scheduler.
+"""
+from pyvc.api import *
+from pyvc import core
+from contracts._parts import bounded
+from twisted.internet import task
+from twisted.internet.defer import Deferred
+from twisted.python.failure import Failure
+
+M = "twisted.internet.task"
+
+
+class AnyException(Exception):
+    pass
+
+
+class AnyBaseException(BaseException):
+    pass
+
+
+def mk_failure(I, *a, **kw):
+    if a and isinstance(a[0], BaseException):
+        return Failure(a[0])
+    return Failure(RuntimeError("the exception being handled"))
+
+
+def next_model(I, it, *default):
+    c = ctx()
+    how = c.ghost["outcome"]
+    c.emit("next", it, (how,))
+    if how == "value":
+        return c.ghost["$contract"].opaque("value")
+    if how == "deferred":
+        return c.ghost["yielded"]
+    if how == "stop":
+        raise StopIteration()
+    if how == "exc":
+        raise AnyException("iterator failed")
+    raise AnyBaseException("iterator failed badly")
+
+
+CALLS = {"next": next_model, "builtins.next": next_model, "Failure": mk_failure,
+         "Deferred.addCallbacks": callout("addCallbacks")}
+
+
+def mktask(c, outcome="value", pause_count=0, state=None, result=None):
+    deferreds = [c.opaque("done1"), c.opaque("done2")]
+    yielded = c.make(Deferred, "yielded", called=False, callbacks=[])
+    t = c.make(task.CooperativeTask, _iterator=c.opaque("iterator"), _cooperator=c.opaque("cooperator"),
+               _deferreds=list(deferreds), _pauseCount=pause_count, _completionState=state, _completionResult=result)
+    return t, deferreds, yielded
+
+
+def fired(S, name):
+    return [e for e in S.trace if e.name == name]
+
+
+def completed_once(S, with_check):
+    """each completion Deferred called back exactly once, with a result accepted by with_check"""
+    out = True
+    for n in ("done1", "done2"):
+        ev = fired(S, n + ".callback")
+        out = band(out, len(ev) == 1, True if len(ev) != 1 else with_check(ev[0].args[0]), len(fired(S, n + ".errback")) == 0)
+    return out
+
+
+class OneWorkUnit(Contract):
+    prop = "C11"
+    module = M
+    function = "CooperativeTask._oneWorkUnit"
+    also = ["CooperativeTask._completeWith", "CooperativeTask.pause"]
+    differential = False
+    calls = CALLS
+    inputs = dict(outcome=OneOf("value", "deferred", "stop", "exc", "base"))
+    trusted = ["next(iterator) as a call-out with five representative outcomes (the code discriminates only StopIteration / "
+               "BaseException / Deferred-or-not)"]
+
+    def setup(self, i):
+        t, deferreds, yielded = mktask(self, i.outcome)
+        return dict(self=t, args=[], objs=dict(t=t), ghost=dict(outcome=i.outcome, yielded=yielded, iterator=t._iterator))
+
+    def bounded_inputs(self, tier):
+        return iter(())
+
+    raises = ()
+
+    def _protocol(S):
+        t, how = S.new.t, S.i.outcome
+        nxt = fired(S, "next")
+        if len(nxt) != 1:
+            return False
+        if how == "value":
+            return band(t._completionState is None, t._pauseCount == 0, len(S.trace) == 1)
+        if how == "deferred":
+            hook = fired(S, "addCallbacks")
+            return band(t._completionState is None, t._pauseCount == 1, len(fired(S, "cooperator._removeTask")) == 1,
+                        len(hook) == 1, hook[0].target is S.ghost["yielded"], len(hook[0].args) == 2,
+                        len(fired(S, "done1.callback")) == 0, len(fired(S, "done2.callback")) == 0)
+        if how == "stop":
+            return band(isinstance(t._completionState, task.TaskDone), t._completionResult is S.ghost["iterator"],
+                        completed_once(S, lambda r: r is S.ghost["iterator"]), len(fired(S, "cooperator._removeTask")) == 1)
+        return band(isinstance(t._completionState, task.TaskFailed), isinstance(t._completionResult, Failure),
+                    completed_once(S, lambda r: isinstance(r, Failure)), len(fired(S, "cooperator._removeTask")) == 1)
+
+    ensures = dict(completes_exactly_for_exhaustion_or_raise_and_once=_protocol)
+    canaries = [("except BaseException:", "except Exception:", "raises/unexpected"),
+                ("self.pause()", "pass", "completes_exactly_for_exhaustion_or_raise_and_once")]
+
+
+class StopThenLateFailure(Contract):
+    """the task yielded a Deferred, is stopped while waiting, then that Deferred fails: one completion, TaskStopped"""
+    prop = "C11"
+    module = M
+    function = "CooperativeTask._oneWorkUnit"  # the continuation that must ignore the late failure is defined there
+    also = ["CooperativeTask.stop", "CooperativeTask._completeWith", "CooperativeTask._checkFinish"]
+    differential = False
+    calls = CALLS
+    inputs = dict(late=OneOf("errback", "callback", "nothing"))
+
+    def setup(self, i):
+        t, deferreds, yielded = mktask(self, "deferred")
+
+        def drive(call):
+            c = ctx()
+            call(t, "_oneWorkUnit")
+            hook = [e for e in c.trace if e.name == "addCallbacks"][0]
+            on_ok, on_err = hook.args[0], hook.args[1]
+            call(t, "stop")
+            I = c.ghost["$interp"]
+            if i.late == "errback":
+                I.call(on_err, [Failure(RuntimeError("late"))])
+            elif i.late == "callback":
+                I.call(on_ok, [None])
+            return None
+        return dict(drive=drive, objs=dict(t=t), ghost=dict(outcome="deferred", yielded=yielded, iterator=t._iterator))
+
+    def bounded_inputs(self, tier):
+        return iter(())
+
+    raises = ()
+
+    def _once(S):
+        t = S.new.t
+        return band(isinstance(t._completionState, task.TaskStopped),
+                    completed_once(S, lambda r: isinstance(r, Failure) and isinstance(r.value, task.TaskStopped)),
+                    # the late result neither completes the task again nor puts it back into the cooperator
+                    len(fired(S, "cooperator._addTask")) == 0)
+
+    ensures = dict(stopped_once_and_late_result_ignored=_once)
+    canaries = [("if self._completionState is None:", "if True:", "stopped_once_and_late_result_ignored")]
+
+
+class FinishedOrNotPaused(Contract):
+    prop = "C11"
+    module = M
+    function = "CooperativeTask.resume"
+    also = ["CooperativeTask.pause", "CooperativeTask.stop", "CooperativeTask._checkFinish"]
+    differential = False
+    calls = CALLS
+    inputs = dict(op=OneOf("pause", "resume", "stop"), finished=OneOf(None, "done", "failed", "stopped"),
+                  paused=Int(lo=0, small=[0, 1, 2]))
+
+    def setup(self, i):
+        state = {None: None, "done": task.TaskDone(), "failed": task.TaskFailed(), "stopped": task.TaskStopped()}[i.finished]
+        t, deferreds, yielded = mktask(self, "value", pause_count=i.paused, state=state, result=self.opaque("result") if state else None)
+        return dict(fn=getattr(task.CooperativeTask, i.op), args=[t], objs=dict(t=t), ghost=dict(state=state))
+
+    def bounded_inputs(self, tier):
+        return iter(())
+
+    raises = (task.TaskFinished, task.NotPaused)
+
+    def _matching(S):
+        t, st = S.new.t, S.ghost["state"]
+        if S.i.op in ("pause", "stop") and st is not None:
+            # a finished task refuses with its own completion state and nothing changes
+            return band(S.exc is st, len(S.trace) == 0, veq(t._pauseCount, S.old.t._pauseCount))
+        if S.i.op == "resume" and S.exc is not None:
+            return band(isinstance(S.exc, task.NotPaused), S.i.paused == 0, len(S.trace) == 0)
+        if S.i.op == "resume":
+            back = len(fired(S, "cooperator._addTask"))
+            runnable_again = band(S.i.paused == 1, st is None)
+            return band(S.i.paused >= 1, t._pauseCount == S.i.paused - 1,
+                        veq(back == 1, runnable_again) if is_sym(runnable_again) else back == (1 if runnable_again else 0))
+        if S.i.op == "pause":
+            out = len(fired(S, "cooperator._removeTask"))
+            first = S.i.paused == 0
+            return band(S.exc is None, t._pauseCount == S.i.paused + 1,
+                        veq(out == 1, first) if is_sym(first) else out == (1 if first else 0))
+        return band(S.exc is None, isinstance(t._completionState, task.TaskStopped))
+
+    ensures = dict(finished_tasks_refuse_with_their_state_and_pause_counts_nest=_matching)
+    canaries = [("if self._pauseCount == 0 and self._completionState is None:", "if self._pauseCount == 0:", "finished_tasks_refuse_with_their_state_and_pause_counts_nest")]
+
+
+CONTRACTS = [OneWorkUnit, StopThenLateFailure, FinishedOrNotPaused]
 BOUNDED = bounded("C11")
 _SCOPE = ('real Cooperator driven by a deterministic scheduler and a work-unit-count termination predicate: 1 task x 14 scripts (values, Deferreds fired later with success or failure, pre-fired Deferreds, raising) x every history of length <= 5 over {tick, pause, resume, stop, fire-ok, fire-err, whenDone}; 2 tasks (cooperate / coiterate) x histories of length <= 3; removal of tasks during a tick for 2-8 tasks over 14 shapes incl. pausing / stopping a neighbour from inside next(); seeded random histories with 1-8 tasks and 5-60 operations; oracle: a model from the property statement (never advanced while paused / stopped / finished / waiting, whenDone / coiterate Deferreds fire exactly once with the iterator / failure / stop reason, TaskFinished subtypes, bounded wait of 2N+2 work units for a runnable task)')
-NOTES = dict(explanation=_SCOPE, not_covered=["deductive contracts on the anchored functions (not built)"])
+NOTES = dict(explanation="CooperativeTask's per-task protocol proved (work unit outcomes, stop with a late failure, finished / not-paused refusals); "
+                         "scheduling is bounded: " + _SCOPE,
+             not_covered=["Cooperator._tick / _tasksWhileNotStopped (which task runs next, fairness: the known findings) and "
+                          "coiterate: bounded tier only", "resume() on a task that is only waiting (shared pause count: the known finding)"])
 MANIFEST = dict(
-    category="exploration",
-    text="Bounded stand-in only, on the real code: " + _SCOPE + ".",
-    note=EXPLORATION_NOTE,
-    technique="bounded exhaustive evaluation of an executable contract on the real code (stand-in; not proved)",
+    category="proof",
+    text="CooperativeTask._oneWorkUnit (with _completeWith and pause) is proved over every outcome of next(iterator): a value "
+         "completes nothing; a Deferred pauses the task, removes it from the cooperator and registers the two continuations; "
+         "exhaustion completes with TaskDone and the iterator, any raise (Exception or not) with TaskFailed and a Failure, each "
+         "whenDone Deferred fired exactly once.  stop() while waiting on a Deferred completes once with TaskStopped and a later "
+         "failure or success of that Deferred neither completes again nor re-queues the task.  pause / stop on a finished "
+         "task raise its completion state and change nothing, resume without pause raises NotPaused, pause counts nest and "
+         "only the outermost pause / resume touches the cooperator.  Which task runs next, fairness and coiterate are "
+         "exercised in the bounded tier only: " + _SCOPE + ".",
+    note="Trusted: pyvc, SMT solvers, next() / cooperator / completion Deferreds as call-outs, Failure() construction modelled. "
+         "Scheduling: bounded, never counted as proved.",
+    technique="contract-based deductive verification (symbolic execution with hostile call-outs and driven multi-call scenarios) + bounded exhaustive histories",
 )
